@@ -176,6 +176,20 @@ func cases(c *eng.Ctx) []*Spec {
 		}
 	}
 
+	// contexts that are already done when the scope is created (a request aborted before its
+	// scope is requested): the scope is created and closed right away by its watcher; the
+	// explicit Close of the cycle is then the idempotent second one. Everything must still be
+	// released. Roots with a done context are leaves (a child could not be created on them);
+	// "done" children hang below a live root.
+	for _, host := range hosts {
+		for _, mode := range []string{"leaf-first", "creation-order", "random", "held"} {
+			out = append(out, &Spec{Kind: "cycles", N: n, Host: host, Parent: "done", Shape: []int{-1, -1}, ChildCtx: []string{"", ""}, Close: mode,
+				Inits: randInits(rng, true), Use: randUse(rng), Seed: rng.Int63()})
+			out = append(out, &Spec{Kind: "cycles", N: n, Host: host, Parent: plain[rng.Intn(len(plain))], Shape: []int{-1, 0, 0}, ChildCtx: []string{"", "done", "done"}, Close: mode,
+				Inits: randInits(rng, true), Use: randUse(rng), Seed: rng.Int63()})
+		}
+	}
+
 	// fault enumeration
 	orders := [][]int{{0, 1, 2, 3, 4}, {1, 0, 2, 3, 4}}
 	extra := c.Pick(2, 10)
@@ -265,7 +279,17 @@ func runCase(c *eng.Ctx, idx int, sp *Spec, procBase int) bool {
 	}
 	c.R.Count("initializer_invocations", int64(nInits))
 	c.R.Count("cases_"+sp.Kind, 1)
-	if e.getErrs > 0 {
+	bornDone := sp.Parent == "done"
+	for _, k := range sp.ChildCtx {
+		if k == "done" {
+			bornDone = true
+		}
+	}
+	if bornDone {
+		// resolutions race the watcher that closes a scope whose context was done at creation
+		c.R.Count("cases_with_contexts_done_at_creation", 1)
+		c.R.Count("resolutions_refused_by_scopes_born_cancelled", int64(e.getErrs))
+	} else if e.getErrs > 0 {
 		c.R.Count("unexpected_get_errors", int64(e.getErrs))
 		e.inconcl = append(e.inconcl, "a fault-free resolution failed (not judged by C14)")
 	}
